@@ -14,8 +14,10 @@ from common import log
 DEN = 64
 
 
-def call(tfl, premade_lib, inp, scale=1.0):
-  vals = np.array(inp["vals"], dtype=np.float64) / scale
+def call(tfl, premade_lib, inp, scale=1.0, offset=0.0):
+  """offset: the whole sample (values, clip bounds, default) is shifted by it for the real call and the result shifted
+  back for the trace (the computation is translation invariant); used for data of large magnitude such as dates."""
+  vals = np.array(inp["vals"], dtype=np.float64) / scale + offset
   w = np.array(inp["w"], dtype=np.float64) if inp["hasW"] else None
   kept_w = [wi for v, wi in zip(inp["vals"], inp["w"]) if not (inp["hasDef"] and v == inp["def"])]
   site = {"layer": "compute_keypoints", "mode": inp["mode"], "weighted": inp["hasW"],
@@ -23,8 +25,9 @@ def call(tfl, premade_lib, inp, scale=1.0):
   c = {"in": inp, "scale": scale}
   try:
     kp = premade_lib.compute_keypoints(
-        vals, num_keypoints=inp["k"], keypoints=inp["mode"], clip_min=inp["cmin"] / scale if inp["hasMin"] else None,
-        clip_max=inp["cmax"] / scale if inp["hasMax"] else None, default_value=inp["def"] / scale if inp["hasDef"] else None,
+        vals, num_keypoints=inp["k"], keypoints=inp["mode"], clip_min=inp["cmin"] / scale + offset if inp["hasMin"] else None,
+        clip_max=inp["cmax"] / scale + offset if inp["hasMax"] else None,
+        default_value=inp["def"] / scale + offset if inp["hasDef"] else None,
         weights=w, weight_reduction=inp["red"])
   except Exception as ex:  # pylint: disable=broad-except
     return {"ev": "Raised", "in": inp, "site": site, "exc": repr(ex)[:200], "call": c}
@@ -36,7 +39,8 @@ def call(tfl, premade_lib, inp, scale=1.0):
     tfl.layers.PWLCalibration(input_keypoints=[float(v) for v in kp])
   except Exception:  # pylint: disable=broad-except
     ok = False
-  return {"ev": "Keypoints", "in": inp, "den": DEN, "kp": [int(round(float(v) * scale * DEN)) for v in kp], "pwlOk": ok,
+  c["offset"] = offset
+  return {"ev": "Keypoints", "in": inp, "den": DEN, "kp": [int(round((float(v) - offset) * scale * DEN)) for v in kp], "pwlOk": ok,
           "exact": True, "site": site, "call": c}
 
 
@@ -109,7 +113,10 @@ def run(ctx):
              str(rng.choice(["mean", "sum"])))
     if not nonempty(inp):
       continue
-    ev = call(tfl, premade_lib, inp, scale=16.0)
+    # every fifth sample sits at a large magnitude (dates coded yyyymmdd, unix timestamps): neighbouring keypoints
+    # are distinct numbers although they would coincide if rounded to float32
+    offset = [0.0, 0.0, 0.0, 0.0, 20230100.0, 0.0, 0.0, 0.0, 0.0, 1700000000.0][j % 10]
+    ev = call(tfl, premade_lib, inp, scale=16.0 if offset == 0.0 else 1.0, offset=offset)
     if ev["ev"] == "Keypoints":
       ev["exact"] = len(set(inp["vals"])) <= 8 and inp["k"] <= 5
     events.append(ev)
@@ -143,7 +150,7 @@ def replay(ctx, path):
     c = ev["call"]
     if "in" not in c:
       continue
-    e2 = call(tfl, premade_lib, c["in"], c.get("scale", 1.0))
+    e2 = call(tfl, premade_lib, c["in"], c.get("scale", 1.0), c.get("offset", 0.0))
     log("replay %s -> %s" % (json.dumps(c["in"]), e2.get("kp", e2.get("exc"))))
     events.append(e2)
   ctx.validate("TraceKeypoints", events, shards=1)
